@@ -322,10 +322,14 @@ fn parse_compressed<'a>(input: &'a [u8], cache: &AtomCache) -> NomResult<'a, Own
     }
 
     let mut decoder = ZlibDecoder::new(rest);
-    let mut decompressed = Vec::with_capacity(uncompressed_size as usize);
-    decoder
+    let mut decompressed = Vec::new();
+    (&mut decoder)
+        .take(uncompressed_size as u64 + 1)
         .read_to_end(&mut decompressed)
         .map_err(|_| nom::Err::Failure(NomError::new(input, ErrorKind::Fail)))?;
+    if decompressed.len() > uncompressed_size as usize {
+        return Err(nom::Err::Failure(NomError::new(input, ErrorKind::TooLarge)));
+    }
     let consumed = decoder.total_in() as usize;
 
     let owned_term = match parse_term(&decompressed, cache) {
